@@ -33,6 +33,8 @@ package main
 //@   ensures[malformed] flag != "" && flag != "true" && flag != "false" ==> err != nil && *value == old(*value)
 
 //@ func parseUint(p, bits) (r, err)
+//@   records parseuint
+//@   ensures[fits] err == nil && bits > 0 && bits < 64 ==> (r >> bits) == 0
 
 //@ func setUint(value, bits, name, flag, defaultValue) (err)
 //@   requires value != nil
@@ -40,6 +42,10 @@ package main
 //@   ensures[unset-config] flag == "" && *configProto != "" ==> err == nil && *value == old(*value)
 //@   ensures[unset-default] flag == "" && *configProto == "" ==> err == nil && *value == defaultValue
 //@   ensures[malformed] err != nil ==> *value == old(*value) && flag != ""
+//@   emits parseuint 1
+//@   ensures[exact] flag != "" && err == nil ==> parseuint[0].happened && *value == after(parseuint[0], r) && after(parseuint[0], err == nil)
+//@ |       && before(parseuint[0], p == flag && bits == outer_bits)
+//@   ensures[fits] flag != "" && err == nil && bits > 0 && bits < 64 ==> (*value >> bits) == 0
 
 //@ func setUint32(value, name, flag, defaultValue) (err)
 //@   requires value != nil
@@ -47,6 +53,8 @@ package main
 //@   ensures[unset-config] flag == "" && *configProto != "" ==> err == nil && *value == old(*value)
 //@   ensures[unset-default] flag == "" && *configProto == "" ==> err == nil && *value == uint32(defaultValue)
 //@   ensures[malformed] err != nil ==> *value == old(*value) && flag != ""
+//@   emits parseuint 1
+//@   ensures[exact] flag != "" && err == nil ==> parseuint[0].happened && uint64(*value) == after(parseuint[0], r) && before(parseuint[0], p == flag && bits == 32)
 
 //@ func parseConfig(path) (err)
 //@   assigns reach(config)
